@@ -534,6 +534,19 @@ def mk_replace(base: Term, updates: Tuple[Tuple[str, Term], ...]) -> Term:
     return ("replace", base, tuple(sorted(dict(updates).items())))
 
 
+def call_name(t: Term) -> str:
+    """Dotted callee name of a call term: 'self.q.popleft' or '<receiver>.method' for non-symbolic receivers."""
+    f = t[1]
+    if isinstance(f, str):
+        return f
+    parts = []
+    while f[0] == "attr":
+        parts.append(f[2])
+        f = f[1]
+    base = f[1] if f[0] == "sym" else "<" + show(f) + ">"
+    return ".".join([base] + list(reversed(parts)))
+
+
 def mk_call(f, args=(), kwargs=(), uid=None) -> Term:
     if isinstance(f, tuple) and f[0] == "sym":
         f = f[1]
@@ -806,7 +819,7 @@ def show(t) -> str:
     if k == "ite":
         return f"ite({show(t[1])}, {show(t[2])}, {show(t[3])})"
     if k == "call":
-        f = t[1] if isinstance(t[1], str) else show(t[1])
+        f = t[1] if isinstance(t[1], str) else call_name(t)
         a = [show(x) for x in t[2]] + [f"{kk}={show(v)}" for kk, v in t[3]]
         u = f"#{t[4]}" if t[4] is not None else ""
         return f"{f}{u}(" + ", ".join(a) + ")"
